@@ -52,6 +52,7 @@ type State struct {
 	Env    map[string]Tri
 	defers []ast.Node
 	Ret    token.Pos // first return statement reached on this path (0 = fell off the end)
+	RetStmt *ast.ReturnStmt
 	Panic  bool
 	dead   bool // a violation was reported on this path: the error state is absorbing
 	tr     *trace
@@ -67,7 +68,7 @@ func (s *State) key() string {
 }
 
 func (s *State) clone() *State {
-	n := &State{TS: s.TS, Env: make(map[string]Tri, len(s.Env)), defers: append([]ast.Node(nil), s.defers...), Ret: s.Ret, Panic: s.Panic, tr: s.tr}
+	n := &State{TS: s.TS, Env: make(map[string]Tri, len(s.Env)), defers: append([]ast.Node(nil), s.defers...), Ret: s.Ret, RetStmt: s.RetStmt, Panic: s.Panic, tr: s.tr}
 	for k, v := range s.Env {
 		n.Env[k] = v
 	}
@@ -152,6 +153,9 @@ func (c *Ctx) SetFact(key string, val bool) {
 		c.S.Env[key] = F
 	}
 }
+
+// Fact returns the current three-valued fact for an expression key.
+func (c *Ctx) Fact(key string) Tri { return c.S.Env[key] }
 
 // SiteKey names a call site without positions: callee name + ordinal among the calls to that
 // callee in the analysed function (source order).
@@ -305,7 +309,7 @@ func (ex *Explorer) refine(e ast.Expr, val bool, env map[string]Tri) {
 		}
 		if x.Op == token.NEQ { // normalise x != y to !(x == y)
 			k := exprKey(x.X) + " == " + exprKey(x.Y)
-			if ex.track[k] {
+			if ex.track[k] || (ex.R.Track != nil && ex.R.Track(k)) {
 				ex.setFact(env, k, !val)
 				return
 			}
@@ -521,6 +525,7 @@ func (ex *Explorer) run(body *ast.BlockStmt, s0 *State, inDefer bool) []*State {
 				returned = true
 				if st.Ret == 0 {
 					st.Ret = x.Pos()
+					st.RetStmt = x
 				}
 			case *ast.AssignStmt:
 				ex.scan(c, x, false)
@@ -575,6 +580,7 @@ func (ex *Explorer) run(body *ast.BlockStmt, s0 *State, inDefer bool) []*State {
 						sub := ex.run(dd.Body, o2, true)
 						for _, x := range sub {
 							x.Ret = o.Ret
+							x.RetStmt = o.RetStmt
 							x.Panic = o.Panic
 						}
 						next = append(next, sub...)
